@@ -181,3 +181,30 @@ def load():
         except FileNotFoundError:
             _cache = {}
     return _cache
+
+
+LOG_RECEIVERS = ("log", "logging", "logger", "_log")
+LOG_METHODS = ("debug", "info", "warning", "warn", "error", "exception", "critical", "log")
+
+
+def strip_logging(tree):
+    """remove pure logging statements (`log.debug(...)`, `logging.warning(...)`): they never take part in a property,
+    and adding or removing one is not a behaviour change the rules should see.  Returns the number removed."""
+    n = 0
+    for node in ast.walk(tree):
+        for fld in ("body", "orelse", "finalbody"):
+            blk = getattr(node, fld, None)
+            if not isinstance(blk, list) or not blk or not isinstance(blk[0], ast.stmt):
+                continue
+            keep = []
+            for st in blk:
+                if isinstance(st, ast.Expr) and isinstance(st.value, ast.Call) and isinstance(st.value.func, ast.Attribute) and st.value.func.attr in LOG_METHODS \
+                        and isinstance(st.value.func.value, ast.Name) and st.value.func.value.id in LOG_RECEIVERS:
+                    n += 1
+                    continue
+                keep.append(st)
+            if len(keep) != len(blk):
+                if not keep:
+                    keep = [ast.copy_location(ast.Pass(), blk[0])]
+                setattr(node, fld, keep)
+    return n
